@@ -31,11 +31,17 @@ impl Command for CommandImpl {
         if context.arguments.is_empty() {
             CommandResult::Exit(Some("0".to_string()))
         } else {
-            match context.arguments[0].parse::<i32>() {
-                Ok(_) => CommandResult::Exit(Some(context.arguments[0].clone())),
-                Err(_) => CommandResult::Error(
+            // an integer too large for the exit code type is still an integer (the runner fails the run for it)
+            let digits = context.arguments[0]
+                .strip_prefix('+')
+                .or_else(|| context.arguments[0].strip_prefix('-'))
+                .unwrap_or(&context.arguments[0]);
+            if !digits.is_empty() && digits.chars().all(|character| character.is_ascii_digit()) {
+                CommandResult::Exit(Some(context.arguments[0].clone()))
+            } else {
+                CommandResult::Error(
                     format!("Invalid exit code: {}", context.arguments[0]).to_string(),
-                ),
+                )
             }
         }
     }
